@@ -45,3 +45,12 @@ Definition line_spec (id : Z) (g : Scc.graph) (comps : list (list nat)) (largest
           then "Ok " ++ payload comps largest
           else "REJECT classes=" ++ show_bool (Scc.check_scc g comps)
                ++ " largest=" ++ show_bool (Scc.check_largest comps largest)).
+
+(* Cases built through Graph::from_files: an edge list that references a vertex missing from the
+   vertex list is not a digraph and must be refused by the loader (LoadErr), decided here from wfb. *)
+Definition line_model_files (id : Z) (g : Scc.graph) : string :=
+  if Scc.wfb g then line_model id g else line "M" id "LoadErr".
+Definition line_spec_files (id : Z) (g : Scc.graph) (comps : list (list nat)) (largest : list nat) : string :=
+  if Scc.wfb g then line_spec id g comps largest else line "S" id "LoadErr".
+Definition line_load_failed (id : Z) (g : Scc.graph) : string :=
+  line "S" id (if Scc.wfb g then "a loaded graph" else "LoadErr").
